@@ -97,3 +97,12 @@ package token
 //@   property C03
 //@   ensures [empty_is_an_error] (result.1 != nil) <==> len(tkns) == 0
 //@   ensures [single_token_keeps_type] len(tkns) == 1 ==> result.0 == "dependencyProvider(" + tkns[0].Code + ")"
+
+//@ func (*FactoryFunction).Create
+//@   property C03 C12
+//@   requires [wired] f.aliaser != nil
+//@   ensures [function_token] result.1 == nil && result.0.Kind == KindFunc && result.0.Raw == expr && len(result.0.DependsOn) == 0
+
+//@ func (*FuncRegisterer).RegisterFunc
+//@   property C03 C12
+//@   requires [wired] f.prepender != nil
